@@ -376,12 +376,12 @@ def random_table(rng, f, big=False, boundary=False):
     return (mode, f, S, E, SCALE, recs)
 
 
-def near_tie_core(fs):
+def near_tie_core(fs, small=False):
     """structured core: every ordered pair of one near-tie family as the two measurements of a site (one
     site per pair), 40 and 7 days apart"""
-    for base in NEAR_BASES[:2]:
+    for base in (NEAR_BASES[:1] if small else NEAR_BASES[:2]):
         fam = [fine(v) for v in near_family(base)]
-        for gap in (40, 7):
+        for gap in ((40,) if small else (40, 7)):
             S = 7300
             recs = []
             site = 0
@@ -608,7 +608,7 @@ def confront(ctx, fs, label, share_ref=True):
         part = fs[i:i + chunk]
         gaps, e, st = W.helper_offsets_pairs(part, combos, 0, G_MAX)
         ng = len(gaps)
-        ctx.evaluations += len(RATE_PAIRS) * ng * len(part)
+        ctx.evaluations += len(combos) * ng * len(part)   # distinct computations; every rate pair maps to one
         g2 = gaps[None, :]
         fl = ce = None
         if share_ref:
@@ -821,7 +821,8 @@ def near_tie_config(ctx, i):
     by a site-level screening and a component-level follow-up / survey of the same unrepaired emissions"""
     from harness import wholerun as WR
     cfg = WR.make_config(ctx.rng, duration_method="measurement-based", duration_factor=[1.0, 0.0, 0.3, 0.7][i % 4],
-                         n_sims=1, ndays=ctx.rng.choice([120, 200]), granular=True)
+                         n_sims=1, ndays=ctx.pick(120, ctx.rng.choice([120, 200])), n_sites=ctx.rng.randint(4, 6),
+                         granular=True)
     cfg["rates"] = [0.1, 0.2, 0.3, 0.1, 0.2, 0.3]
     cfg["rep"] = dict(cfg["rep"], epr=0.03125, duration=365, multi=True)
     cfg["repair_delay"] = [60]                 # leaks stay while the next method measures them
@@ -875,7 +876,7 @@ def history_runs(ctx, n):
         tries += 1
         mode = ["measurement-based", "component-based"][len(jobs) % 2]
         cfg = WR.make_config(ctx.rng, duration_method=mode, duration_factor=ctx.rng.choice(WR_FACTORS), n_sims=1,
-                             ndays=ctx.rng.choice([120, 200]), n_sites=ctx.rng.randint(4, 6))
+                             ndays=ctx.pick(120, ctx.rng.choice([120, 200])), n_sites=ctx.rng.randint(4, 6))
         prev, what = WR.prev_variant(cfg, _r.Random(ctx.rng.randrange(1 << 30)))
         if what in seen:
             continue
@@ -979,6 +980,12 @@ def oracle_wholerun(ctx, res):
             groups, windowless = got
             ctx.count("wholerun_estimate_files")
             where = dict(inp_cfg, program=prog, sim=sim)
+            known_sites = {_site_key(x["id"]) for x in cfg["sites"]}
+            foreign = sorted({k[0] for k in groups} - known_sites)
+            if foreign:
+                ctx.violate(f"C13:wholerun:{mname}:windows-for-a-site-that-is-not-in-the-configuration",
+                            "the file carries windows of a site the configuration does not contain",
+                            dict(where, sites=foreign[:10], configured=sorted(known_sites)[:20]))
             if windowless:
                 ctx.violate(f"C13:wholerun:{mname}:measurement-without-window",
                             "rows of the estimated emissions file have no Start/End Date (or a NaN rate / volume): "
@@ -1106,9 +1113,9 @@ def wholerun_stage(ctx):
     corpus = wholerun_corpus()
     ctx.count("wholerun_corpus_configs", len(corpus))
     wide_cfgs = wholerun_wide_configs(ctx)
-    near_cfgs = [near_tie_config(ctx, i) for i in range(ctx.pick(1, 4))]
+    near_cfgs = [near_tie_config(ctx, i) for i in range(ctx.pick(1, 3))]
     hist_jobs = history_runs(ctx, ctx.pick(1, 4))
-    cfgs = corpus + wholerun_configs(ctx, ctx.pick(2, 8)) + wide_cfgs + near_cfgs
+    cfgs = corpus + wholerun_configs(ctx, ctx.pick(2, 7)) + wide_cfgs + near_cfgs
     ctx.count("wholerun_near_tie_configs", len(near_cfgs))
     for c in wide_cfgs:
         ctx.count("wholerun_wide_configs")
@@ -1129,7 +1136,7 @@ def wholerun_stage(ctx):
     for _ in range(n_mode):
         mode = ctx.rng.choice(["measurement-based", "component-based"])
         mode_cfgs.append(WR.make_config(ctx.rng, duration_method=mode, duration_factor=ctx.rng.choice(WR_FACTORS),
-                                        n_sims=ctx.pick(2, 5), ndays=ctx.pick(90, 120), n_sites=ctx.rng.randint(3, 5)))
+                                        n_sims=ctx.pick(2, 5), ndays=ctx.pick(60, 120), n_sites=ctx.rng.randint(3, 5)))
 
     def snapshot(res):
         return {(p, s): (res.estimated(p, s), res.estimated_to_remove(p, s)) for p in res.programs for s in range(res.n_sims)}
@@ -1177,7 +1184,9 @@ def wholerun_stage(ctx):
                     ctx.violate(sig, "the simulator crashed inside the estimation code: " + log0.strip().splitlines()[-1][:200],
                                 {"cfg": mcfg, "log_tail": log0})
                 else:
-                    ctx.note("mode configuration crashed outside the estimation code (not judged by C13)")
+                    ctx.count("wholerun_not_judged:crashed-outside-the-estimation-code")
+                    ctx.note("mode configuration crashed outside the estimation code (not judged by C13): "
+                             + (log0.strip().splitlines() or ["?"])[-1][:200])
                 continue
             ctx.count("wholerun_mode_configs")
             for name, run in (("pool", runs[1]), ("pool-programs-reversed", runs[2])):
@@ -1385,7 +1394,7 @@ def year_shift_stage(ctx):
     it.  Calendars are read by Python's date arithmetic, not by the code's Timestamp subtraction."""
     import datetime as _dt
     rng = ctx.rng
-    n = ctx.pick(30, 700)
+    n = ctx.pick(30, 450)
     cases = [random_table(rng, float_factor(rng) if i % 2 else dyadic_factor(rng), boundary=(i % 3 != 0)) for i in range(n)]
     for case in cases:
         (mode, f, S, E, scale, recs) = case
@@ -1472,13 +1481,13 @@ def run(ctx):
         ctx.exhaustive = False  # the grid is enumerated completely; the property's domain (all reals) is not
 
     def st_cross():
-        sub = grid if not ctx.quick else sorted(rng.sample(grid, 120) + [0.7, 0.8])
+        sub = sorted(rng.sample(grid, ctx.pick(120, 500)) + [0.7, 0.8])
         scalar_crosscheck(ctx, sub)
         dy = [k / 1024 for k in range(1025)]
         exact_grid(ctx, dy if not ctx.quick else sorted(set(dy[::16] + rng.sample(dy, 60))))
 
     def st_random_doubles():
-        nrand = ctx.pick(300, 12000)
+        nrand = ctx.pick(300, 8000)
         rand = list(dict.fromkeys(NASTY + [rng.random() for _ in range(nrand)]
                                   + [math.nextafter(k / 1000, rng.choice([0.0, 1.0])) for k in rng.sample(range(1, 1000), ctx.pick(40, 600))]))
         rand = [f for f in rand if f not in set(grid) and 0.0 <= f <= 1.0]
@@ -1487,7 +1496,7 @@ def run(ctx):
         ctx.sample({"float_triple": {"f": 0.7, "gap": 10, "orderings": "both"},
                     "helpers(endT,endF,startT,startF)": [int(x[10]) for x in W.helper_offsets(0.7, 0, 20)[1:]]})
 
-    n_rand = ctx.pick(130, 2500)
+    n_rand = ctx.pick(110, 1900)
 
     def st_tables_exact():
         # whole tables, exact factors: model vs implementation
@@ -1501,8 +1510,8 @@ def run(ctx):
         for c in cases[:2]:
             ctx.sample({"table_case": [c[0], c[1], c[2], c[3], c[4], [list(r) for r in c[5]][:8]]})
         # measurements that are ties up to rounding (1 ulp ... 1e-6, both signs) next to exact ties
-        nt_fs = [1.0, 0.0, 0.25] if ctx.quick else [1.0, 0.0, 0.25, 0.75, 0.5, 0.375]
-        run_tables(ctx, list(near_tie_core(nt_fs)), exact=True, origin="near_tie_core", style_rng=rng)
+        nt_fs = [1.0, 0.0, 0.25] if ctx.quick else [1.0, 0.0, 0.25, 0.375]
+        run_tables(ctx, list(near_tie_core(nt_fs, small=ctx.quick)), exact=True, origin="near_tie_core", style_rng=rng)
         cases = [near_tie_table(rng, dyadic_factor(rng)) for _ in range(ctx.pick(40, 400))]
         run_tables(ctx, cases, exact=True, origin="near_tie_exact", style_rng=rng)
 
